@@ -132,7 +132,9 @@ type verifConn struct {
 
 func (c *verifConn) Prepare(q string) (driver.Stmt, error) { return c.inner.Prepare(q) }
 func (c *verifConn) Close() error                          { return c.inner.Close() }
-func (c *verifConn) Begin() (driver.Tx, error)             { return c.BeginTx(context.Background(), driver.TxOptions{}) }
+func (c *verifConn) Begin() (driver.Tx, error) {
+	return c.BeginTx(context.Background(), driver.TxOptions{})
+}
 
 func (c *verifConn) BeginTx(ctx context.Context, opts driver.TxOptions) (driver.Tx, error) {
 	c.h.point("begin", "<")
